@@ -293,15 +293,47 @@ EXTRA_D = {
  'C19': 'A policy applied after the try (recorded exception) is analysed too: the record is cleared before each attempt.',
  'C20': 'Reductions that need an operand are not applied to a collection filled only inside a data loop (R20.7).',
 }
+EXTRA_E = {
+ 'C01': 'An iterator that re-seeds a random generator does so on every path before its first yield (R1.7).',
+ 'C02': 'A non-yielding loop over the streamed source counts as bounded only under a counter that every pass increments; '
+        '`w.writerows(source)` is the loop it stands for.',
+ 'C03': 'Rows of the tables in a *tables parameter are typed as rows (parameters whose elements are opened with iter()).',
+ 'C04': 'The groupby that cuts the groups a merge advances by has a Comparable key; ordering operators applied inside nested '
+        'functions of the selectors are ordering sites too.',
+ 'C05': 'The exhaustion test looks at the bound the runs are read with (R5.1); every input of the mergesort merge is '
+        'standardised to the output fields (R5.12).',
+ 'C06': 'Getters are applied to rows of the table whose header they were built from (R6.12); the sorts of the join constructors '
+        'get no reverse flag, arguments bound by position (R6.13); matched groups yield inside loops over both groups (R6.14).',
+ 'C07': 'Getters are applied to rows of the table whose header they were built from (R7.9).',
+ 'C09': 'Value getters created in the loop over the aggregation specification do not read its variables late (R9.13); a key '
+        'selector is never tested for truth (R9.14); the header of mergeduplicates starts with the key specification in its '
+        'own order (R9.15).',
+ 'C11': 'The buffering clauses of sort (C05 R5.1-R5.3) and "no identity comparison with caller-supplied values" (C12 R12.11: '
+        'spilled rows are copies) are imported as R11.6 / R11.7.',
+ 'C12': 'Converter functions created in a loop do not read its variables late (R12.15); inside a zip_longest loop the '
+        'exhausted side is recognised by the fill value (R12.16).',
+ 'C13': 'The yield guard is evaluated also for truthy / falsy non-bool predicate results (R13.1); a field selector is never '
+        'tested for truth (R13.9).',
+ 'C15': 'The default dialect is decided as a flow through setdefault / guarded stores / delegation (R15.2); a writer opens '
+        'its target before it can return (R15.11).',
+ 'C16': 'A pass through a tee view does not change the view (R16.5); csv.writer gets the same arguments in tee and writer.',
+ 'C17': 'Calls of helpers that (transitively) commit count as commits in the ordering rule (R17.1).',
+ 'C18': 'The guard of the spill-file creation and the finaliser are decided on paths / through parameters, whatever the spelling.',
+ 'C19': 'No broad handler around the policy site completes without raising (R19.5).',
+ 'C20': 'A guarded first-row read is not reachable between reading the header and yielding it (R20.8); a plain dict filled '
+        'only in a data loop is not subscripted after it (R20.9).',
+}
 ROBUST = (' All rules are evaluated on functions in expanded form (bounded inlining of helpers unknown to the rules) and, where '
           'they evaluate decision ladders, on canonical tests and effect sequences rather than statement texts (DESIGN.md §9).')
 for _p, _t in EXTRA_D.items():
     CLAIMS[_p]['text'] = CLAIMS[_p]['text']          # (appended below, after EXTRA)
 for _p in CLAIMS:
-    CLAIMS[_p]['technique'] = CLAIMS[_p]['technique'] + '; bounded helper inlining and shape-independent ladder evaluation (three-valued tests, path enumeration) before the rules are applied'
+    CLAIMS[_p]['technique'] = CLAIMS[_p]['technique'] + '; bounded helper inlining, semantics-preserving normalisation (loop peeling, alias write-back) and shape-independent ladder evaluation (three-valued tests, path enumeration) before the rules are applied'
 for _p, _t in EXTRA.items():
     CLAIMS[_p]['text'] = CLAIMS[_p]['text'] + ' ' + _t
 for _p, _t in EXTRA_D.items():
+    CLAIMS[_p]['text'] = CLAIMS[_p]['text'] + ' ' + _t
+for _p, _t in EXTRA_E.items():
     CLAIMS[_p]['text'] = CLAIMS[_p]['text'] + ' ' + _t
 
 PENDING = 'check not yet implemented in this revision (work in progress; see DESIGN.md for the planned rules)'
